@@ -190,7 +190,7 @@ def judge(chk, items, gdir, nproc):
     verdicts = {}
     try:
         with cf.ThreadPoolExecutor(max_workers=nb) as ex:
-            futs = [ex.submit(vlib.tlc, "MirrorAsmCheck", "MirrorAsmCheck.cfg", env={"C13_MIRROR": paths[k]}, timeout=3000, xmx="3g",
+            futs = [ex.submit(vlib.tlc, "MirrorAsmCheck", "MirrorAsmCheck.cfg", env={"C13_MIRROR": paths[k]}, timeout=3000, xmx="2g",
                               tag="c13mir_%d" % k) for k in range(nb)]
             for k, fu in enumerate(futs):
                 r = fu.result()
